@@ -170,7 +170,7 @@ func syncBars(sc *engine.Scenario, added []bool) int {
 			continue
 		}
 		for _, d := range b.Decors {
-			if d.C&4 != 0 {
+			if d.C&4 != 0 && !d.Disabled {
 				n++
 				break
 			}
